@@ -35,6 +35,7 @@ func (d detReader) Read(p []byte) (int, error) { return d.r.Read(p) }
 // ReplayFile is the on-disk form of a (minimised) failing run.
 type ReplayFile struct {
 	Version   int               `json:"version"`
+	Tier      string            `json:"tier"`
 	Property  string            `json:"property"`
 	World     string            `json:"world"`
 	Violation *Violation        `json:"violation"`
@@ -301,6 +302,9 @@ func WorkerMain(t *testing.T) {
 		}
 		job.World = rf.World
 		job.Seed = rf.Seed
+		if rf.Tier != "" {
+			job.Tier = rf.Tier // the swarm configuration depends on the tier
+		}
 		if job.Override == nil {
 			job.Override = rf.Override
 		}
